@@ -9,6 +9,7 @@ type Account struct {
 	tags    []string
 	Rate    uint8
 	owner   *int
+	écart   int16 // an unexported name that does not start with an ASCII letter
 }
 
 func Balance(a *Account) int64 { return a.balance }
@@ -18,7 +19,7 @@ func RefEq(a, b *Account) bool {
 	if a == nil || b == nil {
 		return a == nil && b == nil
 	}
-	if a.Name != b.Name || a.balance != b.balance || a.Rate != b.Rate {
+	if a.Name != b.Name || a.balance != b.balance || a.Rate != b.Rate || a.écart != b.écart {
 		return false
 	}
 	if (a.tags == nil) != (b.tags == nil) || len(a.tags) != len(b.tags) {
@@ -56,6 +57,7 @@ func Scramble(a *Account) {
 		a.tags[i] = "#"
 	}
 	a.Rate = ^a.Rate
+	a.écart = ^a.écart
 	if a.owner != nil {
 		*a.owner = ^*a.owner
 	}
@@ -66,7 +68,7 @@ func Snapshot(a *Account) *Account {
 	if a == nil {
 		return nil
 	}
-	c := &Account{Name: a.Name, balance: a.balance, Rate: a.Rate}
+	c := &Account{Name: a.Name, balance: a.balance, Rate: a.Rate, écart: a.écart}
 	if a.tags != nil {
 		c.tags = make([]string, len(a.tags))
 		copy(c.tags, a.tags)
